@@ -144,7 +144,7 @@ Definition mon_step (p : prog) (m : mon) (l : label) : option mon :=
       | None => if forallb (fun w => negb (owed p m w)) (m_created m) then Some m else None
       | Some _ => None
       end
-  | LFlushDone | LFinish _ | LRead _ | LArrive _ | LExit _ => Some m
+  | LFlushDone | LFinish _ | LRead _ | LArrive _ | LExit _ | LCancel => Some m
   end.
 
 Fixpoint mon_run (p : prog) (m : mon) (tr : list label) : option mon :=
